@@ -98,6 +98,9 @@ class Monitors:
         self.case_steps = 0
         self.case_rule_calls = 0
         self.zero_length = []
+        self.track_prov = False          # provenance: id(artifact) -> set of (mstart, mend, pattern id) it was built from
+        self.prov = {}
+        self.prov_keep = []
         self._orig_registry = {}
         self._install()
 
@@ -153,6 +156,18 @@ class Monitors:
 
         self.p.set(m, "timeout_", timeout_)
 
+        orig_post = m.apply_postprocessing_rules
+
+        def apply_postprocessing_rules(ts, art):
+            res = orig_post(ts, art)
+            mon.events["latent_postprocess"] += 1
+            if mon.track_prov and res is not art:
+                mon.prov[id(res)] = mon.prov.get(id(art), set())
+                mon.prov_keep.append(res)
+            return res
+
+        self.p.set(m, "apply_postprocessing_rules", apply_postprocessing_rules)
+
     def _wrap_rule(self, name, fn):
         mon = self
         snap = self.snapshots
@@ -178,6 +193,15 @@ class Monitors:
             if res is not None:
                 mon.rule_fired[name] += 1
                 mon.case_rules[name] += 1
+                if mon.track_prov:
+                    pv = set()
+                    for a in args:
+                        if type(a).__name__ == "RegexMatch":
+                            pv.add((a.mstart, a.mend, a.id))
+                        else:
+                            pv |= mon.prov.get(id(a), set())
+                    mon.prov[id(res)] = pv
+                    mon.prov_keep.append(res)
             return res
 
         monitored.__name__ = getattr(fn, "__name__", "wrapper")
@@ -197,6 +221,8 @@ class Monitors:
         self.case_norm = None
         self.case_raises = []
         self.snap_breaches = []
+        self.prov = {}
+        self.prov_keep = []
 
 
 class FixedNow:
